@@ -241,7 +241,29 @@ def fam_genflows(rng, g):
     return {"convs": cs, "answers": {}, "default": "hash", "modes": ("multi_step",)}
 
 
+def fam_overflow(rng, g):
+    """general mode with a length limit on the prompt (max_length 700): every conversation outgrows it, so the oldest part of
+    its history is cut from the prompt - by a different amount for each conversation (many medium turns / one long message
+    followed by short ones / short turns only)"""
+    def medium(i, t):
+        return "%s%d medium %s " % ("uvw"[i], t, g) + "lorem ipsum dolor sit amet " * rng.randint(4, 6)
+
+    shapes = ["many-medium", "long-then-short"] + [rng.choice(["many-medium", "long-then-short", "short"]) for _ in range(rng.choice([0, 1]))]
+    rng.shuffle(shapes)
+    cs = []
+    for i, sh in enumerate(shapes):
+        if sh == "many-medium":
+            turns = [[U(medium(i, t))] for t in range(rng.randint(5, 7))]
+        elif sh == "long-then-short":
+            turns = [[U("%s0 long %s " % ("uvw"[i], g) + "consectetur adipiscing elit " * rng.randint(10, 12))]] + [[U("%s%d short %s" % ("uvw"[i], t, g))] for t in range(1, rng.randint(4, 5))]
+        else:
+            turns = [[U("%s%d tiny %s" % ("uvw"[i], t, g))] for t in range(rng.randint(2, 3))]
+        cs.append(conv(turns))
+    return {"convs": cs, "answers": {}, "default": "hash", "modes": ("general",), "tight": True}
+
+
 SEQ_FAMILIES = [
+    ("overflow", fam_overflow, 3),
     ("genflows", fam_genflows, 4),
     ("sep1", fam_sep1, 3),
     ("sep2", fam_sep2, 2),
@@ -273,6 +295,7 @@ def seq_cases(tier, seed):
                 g = "g%d" % gi
                 d = fam(rng, g)
                 modes = d.pop("modes", MODES)
+                tight = d.pop("tight", False)
                 mode = modes[(gi + rnd + seed) % len(modes)] if rng.random() < 0.7 else rng.choice(modes)
                 k, m = _rails(rng)
                 if mode == "passthrough":
@@ -300,7 +323,7 @@ def seq_cases(tier, seed):
                 for o in orders:
                     yield {
                         "wl": "seq", "fam": name, "mode": mode, "k": k, "m": m, "convs": d["convs"], "answers": d["answers"],
-                        "default": d.get("default", "hash"), "order": o, "tag": g, "all_orders": exhaustive,
+                        "default": d.get("default", "hash"), "order": o, "tag": g, "all_orders": exhaustive, "tight": tight,
                     }
 
 
@@ -615,6 +638,10 @@ class Inst:
         else:
             spec = {"ver": "v1", "k": k, "m": m, "mode": mode, "in_shapes": ["allowed"] * k, "out_shapes": ["allowed"] * m}
             co, y = rails.build_v1(spec)
+            if case.get("tight"):
+                # a length limit on the general prompt: the oldest events of the history are dropped until the prompt fits
+                y += ("prompts:\n  - task: general\n    models:\n      - openai/gpt-3.5-turbo-instruct\n    max_length: 700\n    content: |-\n      {{ general_instructions }}\n\n"
+                      "      {{ history | user_assistant_sequence }}\n      Assistant:\n")
         cfg = L["RailsConfig"].from_content(co, y)
         self.log = rails.Log()
         self.last_state = {}
